@@ -1339,8 +1339,7 @@ def limiter_run(kind, limit, seq):
             if ok:
                 held.append(w)
                 if not tainted and sum(held) > cur:
-                    viol.append(("over-admit", "legit-sequence",
-                                 f"step {i}: acquire({w}) admitted with {sum(held) - w} already held, limit {cur}"))
+                    viol.append(("over-admit", "legit-sequence", f"step {i}: acquire({w}) admitted with {sum(held) - w} already held, limit {cur}", i))
         elif op == "r":
             if w not in held:
                 trace.append((op, w, "skipped"))
@@ -1363,16 +1362,16 @@ def limiter_run(kind, limit, seq):
         act, avail, lm = lim.active, lim.available, lim.limit
         shape = "surplus-release" if tainted else "legit-sequence"
         if avail > lm:
-            viol.append(("above-capacity", shape, f"step {i} {op}: available={avail} > limit={lm}"))
+            viol.append(("above-capacity", shape, f"step {i} {op}: available={avail} > limit={lm}", i))
         if act < 0:
-            viol.append(("above-capacity", shape, f"step {i} {op}: active={act} < 0"))
+            viol.append(("above-capacity", shape, f"step {i} {op}: active={act} < 0", i))
         if not tainted:
             if act != sum(held):
-                viol.append(("conservation", shape, f"step {i} {op}: active={act} but {sum(held)} is held"))
+                viol.append(("conservation", shape, f"step {i} {op}: active={act} but {sum(held)} is held", i))
             if act <= lm and act + avail != lm:
-                viol.append(("conservation", shape, f"step {i} {op}: active={act} + available={avail} != limit={lm}"))
+                viol.append(("conservation", shape, f"step {i} {op}: active={act} + available={avail} != limit={lm}", i))
             if lm != cur:
-                viol.append(("conservation", shape, f"step {i} {op}: limit={lm}, expected {cur}"))
+                viol.append(("conservation", shape, f"step {i} {op}: limit={lm}, expected {cur}", i))
     return viol, trace, (tuple(held), lim.active, lim.available, lim.limit)
 
 
@@ -1391,10 +1390,11 @@ def _lim_work(job):
                 st["nontriv"] += 1
                 if not st["samples"]:
                     st["samples"].append({"limiter": kind, "limit": limit, "ops": seq, "trace": trace})
-            for clause, shape, desc in viol:
+            for clause, shape, desc, step in viol:
                 fp = f"{kind}Concurrency/{clause}/{shape}"
-                if fp not in st["viol"]:
-                    st["viol"][fp] = (desc, {"driver": "limiters", "limiter": kind, "limit": limit, "ops": seq})
+                if fp not in st["viol"] or len(st["viol"][fp][1]["ops"]) > step + 1:
+                    st["viol"][fp] = (desc, {"driver": "limiters", "limiter": kind, "limit": limit,
+                                             "ops": seq[:step + 1]})
     return st
 
 
@@ -1457,9 +1457,17 @@ def drivers(tier):
     def sem_mix_nohop(cfg):
         return [OFFS, ["acq", "try"], amounts(cfg["cap"]), [1, 2], [0]]
 
+    def sem_sharp4(cfg):
+        # two early holders + two later acquirers: the smallest shape in which a PARTIAL release
+        # meets a queue whose head does not fit (strict arrival order among blocked acquirers)
+        a = amounts(cfg["cap"])
+        early = [[0], ["acq"], a, [1, 2], [0]]
+        late = [[0, 1], ["acq"], a, [0, 1], [0]]
+        return {"per_worker": [early, early, late, late]}
+
     for nm, prim in (("resource", "Resource"), ("semaphore", "Semaphore")):
         if q:
-            plans = [(1, sem_full), (2, sem_full), (3, sem_acq_nohop), (3, sem_mix_nohop)]
+            plans = [(1, sem_full), (2, sem_full), (3, sem_acq_nohop), (3, sem_mix_nohop), (4, sem_sharp4)]
         else:
             plans = [(1, sem_full), (2, sem_full), (3, sem_full), (4, sem_acq_nohop)]
         D.append((nm, prim, caps, plans))
@@ -1589,8 +1597,8 @@ def replay(data):
         for t in trace:
             print("  op", t)
         print("  final (held, active, available, limit):", final)
-        fps = [f"{rep['limiter']}Concurrency/{c}/{s}" for c, s, _ in viol]
-        for (c, s, dsc) in viol:
+        fps = [f"{rep['limiter']}Concurrency/{c}/{s}" for c, s, _d, _i in viol]
+        for (c, s, dsc, _i) in viol:
             print(f"  !! {rep['limiter']}Concurrency/{c}/{s}: {dsc}")
         return 1 if (want in fps if want else fps) else 0
     specs = _thaw(rep["workers"])
